@@ -825,7 +825,7 @@ theorem glookup_foldl_gstep (k : Key) (fl : Flat) (acc : List (Key × Flat)) :
       | none => if sub k fl = [] then none else some (sub k fl) := by
   induction fl generalizing acc with
   | nil =>
-    cases h : glookup k acc <;> simp [sub]
+    cases h : glookup k acc <;> simp [sub, h]
   | cons hd tl ih =>
     obtain ⟨q, c⟩ := hd
     rw [List.foldl_cons, ih]
